@@ -158,6 +158,9 @@ class LibMap:
         if arrow and ct.endswith("*"):
             # method called through a raw pointer to a modelled type
             pointee = ct[:-1]
+        elif ct.endswith("*"):
+            # member of a smart pointer OBJECT (p.get(), p.reset(..)): not a call on the pointed-to model container
+            pointee = "*"
         else:
             pointee = ct
         if pointee.startswith("struct vf_seq_"):
@@ -186,12 +189,23 @@ class LibMap:
         if pointee == "vf_str":
             o = em.paren(em.E(base))
             if name in ("c_str", "data"):
-                return "vf_str_cstr(%s)" % o
+                return self.str_fn(em, "vf_str_cstr", "char*", ["vf_str"], [o])
             if name == "empty":
-                return "vf_str_empty(%s)" % o
+                return self.str_fn(em, "vf_str_empty", "_Bool", ["vf_str"], [o])
             if name in ("size", "length"):
-                return "vf_str_size(%s)" % o
-            return None
+                return self.str_fn(em, "vf_str_size", "size_t", ["vf_str"], [o])
+            # any other std::string member function: opaque callee on string ids (needs an assumed contract in the spec)
+            pcs, avs = ["vf_str"], [o]
+            for a in args:
+                r = em.infer_arg(a)
+                if r is None:
+                    return None
+                pcs.append(r[0])
+                avs.append(r[1])
+            cn = "vf_str_" + ident(name)
+            em.note_proto(cn, em.ctype(n), pcs, "std::string::%s" % name)
+            em.callees[cn] = "std::string::%s" % name
+            return "%s(%s)" % (cn, ", ".join(avs))
         # smart pointers / atomics on a non-arrow base whose mapped type is scalar
         if not arrow and is_scalar(ct):
             o = em.E(base)
@@ -223,6 +237,12 @@ class LibMap:
             if name.startswith("operator "):
                 return o
         return None
+
+    def str_fn(self, em, cn, ret, pcs, avs):
+        """operation of the opaque string model: an undefined C function (the spec gives it an assumed contract)"""
+        em.note_proto(cn, ret, pcs, "std::string model")
+        em.callees[cn] = "std::string model operation"
+        return "%s(%s)" % (cn, ", ".join(avs))
 
     def seq_call(self, em, n, tag, p, name, args):
         f = "vf_seq_%s_" % tag
@@ -278,6 +298,8 @@ class LibMap:
             return "(*%s)" % r if name == "at" else r
         if name in ("end", "begin", "cend", "cbegin"):
             return "%s%s(%s)" % (f, name.lstrip("c"), p)
+        if name == "insert" and len(args) == 1 and self.mapped(em, args[0]) == "struct vf_pair_" + tag:
+            return "%sinsert_pair(%s, %s)" % (f, p, em.E(args[0]))
         if name in ("insert", "emplace", "try_emplace", "insert_or_assign") and len(args) == 2:
             return "%s%s(%s, %s, %s)" % (f, "insert" if name != "insert_or_assign" else "set", p, em.E(args[0]),
                                          em.E(args[1]))
@@ -364,7 +386,7 @@ class LibMap:
             core = skip(a0)
             if core.get("kind") == "StringLiteral":
                 return "VF_STRLIT(%s)" % core["value"]
-            return "vf_str_from_cstr(%s)" % em.E(a0)
+            return self.str_fn(em, "vf_str_from_cstr", "vf_str", ["char*"], [em.E(a0)])
         if is_scalar(ct):
             if not args:
                 return "((%s)0)" % ct
@@ -390,7 +412,14 @@ class LibMap:
             return None
         if ct.startswith("struct vf_pair_"):
             if len(args) == 2:
-                return "((%s){%s, %s})" % (ct, em.E(args[0]), em.E(args[1]))
+                items = []
+                for a, fct in zip(args, em.tm.pair_insts[ct[len("struct vf_pair_"):]]):
+                    e = em.E(a)
+                    if fct == "vf_str" and self.mapped(em, a) in ("char*", "const char*"):
+                        # converting pair constructor: std::string built from a C string inside std::pair
+                        e = self.str_fn(em, "vf_str_from_cstr", "vf_str", ["char*"], [e])
+                    items.append(e)
+                return "((%s){%s})" % (ct, ", ".join(items))
             if len(args) == 1 and self.mapped(em, args[0]) == ct:
                 return em.E(args[0])
             if not args:
